@@ -1220,6 +1220,65 @@ variant("expectbyte-no-else",
 			return fmt.Errorf("expected '%v', got EOF", string(ch))
 		}
 		return fmt.Errorf("expected '%v', got '%v'", string(ch), string(p.s[0]))"""))
+variant("rcpt-limit-helper",
+  ("conn.go", """	if c.server.MaxRecipients > 0 && len(c.recipients) >= c.server.MaxRecipients {
+		c.writeResponse(452, EnhancedCode{4, 5, 3}, fmt.Sprintf("Maximum limit of %v recipients reached", c.server.MaxRecipients))
+		return
+	}""", """	if c.recipientLimitReached() {
+		c.writeResponse(452, EnhancedCode{4, 5, 3}, fmt.Sprintf("Maximum limit of %v recipients reached", c.server.MaxRecipients))
+		return
+	}"""),
+  ("conn.go", "func (c *Conn) Server() *Server {", "func (c *Conn) recipientLimitReached() bool {\n	return c.server.MaxRecipients > 0 && len(c.recipients) >= c.server.MaxRecipients\n}\n\nfunc (c *Conn) Server() *Server {"))
+variant("size-over-limit-helper",
+  ("conn.go", """			if c.server.MaxMessageBytes > 0 && int64(size) > c.server.MaxMessageBytes {
+				c.writeResponse(552, EnhancedCode{5, 3, 4}, "Max message size exceeded")
+				return
+			}
+
+			opts.Size = int64(size)""", """			if c.overSizeLimit(int64(size)) {
+				c.writeResponse(552, EnhancedCode{5, 3, 4}, "Max message size exceeded")
+				return
+			}
+
+			opts.Size = int64(size)"""),
+  ("conn.go", "func (c *Conn) Server() *Server {", "func (c *Conn) overSizeLimit(n int64) bool {\n	return c.server.MaxMessageBytes > 0 && n > c.server.MaxMessageBytes\n}\n\nfunc (c *Conn) Server() *Server {"))
+variant("starttls-dropsession-helper",
+  ("conn.go", """	if session := c.Session(); session != nil {
+		session.Logout()
+		c.setSession(nil)
+	}
+	c.helo = ""
+	c.didAuth = false
+	c.reset()
+}""", """	c.dropSession()
+	c.helo = ""
+	c.didAuth = false
+	c.reset()
+}
+
+// dropSession logs the current session out, if any.
+func (c *Conn) dropSession() {
+	if session := c.Session(); session != nil {
+		session.Logout()
+		c.setSession(nil)
+	}
+}"""))
+variant("greet-newsession-helper",
+  ("conn.go", """		sess, err := c.server.Backend.NewSession(c)
+		if err != nil {
+			c.helo = ""
+			c.writeError(451, EnhancedCode{4, 0, 0}, err)
+			return
+		}
+
+		c.setSession(sess)
+	}""", """		if err := c.openSession(); err != nil {
+			c.helo = ""
+			c.writeError(451, EnhancedCode{4, 0, 0}, err)
+			return
+		}
+	}"""),
+  ("conn.go", "func (c *Conn) Server() *Server {", "// openSession asks the backend for a session and installs it.\nfunc (c *Conn) openSession() error {\n	sess, err := c.server.Backend.NewSession(c)\n	if err != nil {\n		return err\n	}\n	c.setSession(sess)\n	return nil\n}\n\nfunc (c *Conn) Server() *Server {"))
 if sys.argv[1:] == ['--export']:
     out = [{"id": "benign-" + n, "edits": [{"file": f, "old": o, "new": w} for f, o, w in V[n]]} for n in V]
     json.dump(out, open('/verif/liveness/benign.json', 'w'), indent=1)
